@@ -17,6 +17,16 @@ for _, {{ $.Source }} := range {{ $.ArgVar }} {
 	{{- else -}}
 	{{ .Validate }}
 		{{- range $i, $f := .Fields -}}
+			{{- if .IsArray }}
+for _, e := range {{ $.Source }}.{{ .FieldName }} {
+	if e != nil {
+		if err2 := {{ .ValidateVar }}(e); err2 != nil {
+			err = goa.MergeErrors(err, err2)
+		}
+	}
+}
+				{{- continue }}
+			{{- end }}
 			{{- if .IsRequired -}}
 				{{- if or $i $.Validate }}{{ "\n" }}{{ end -}}
 if {{ $.Source }}.{{ .FieldName }} == nil {
